@@ -25,6 +25,7 @@ import (
 	"strings"
 	"sync"
 	"testing"
+	"time"
 	"unicode/utf8"
 
 	"github.com/acquirecloud/golibs/files"
@@ -91,11 +92,18 @@ func TestCheck(t *testing.T) {
 		return
 	}
 	maxSize := run.Pick(64<<10, 1<<20)
-	h.roundTrips(run.Pick(64, 480), maxSize)
-	h.confinement(run.Pick(600, 6000))
-	if run.Thorough() {
-		h.straceSubset()
+	phases := map[string]float64{}
+	timed := func(name string, f func()) {
+		t0 := time.Now()
+		f()
+		phases[name] = time.Since(t0).Seconds()
 	}
+	timed("roundtrip", func() { h.roundTrips(run.Pick(64, 320), maxSize) })
+	timed("confinement", func() { h.confinement(run.Pick(600, 4000)) })
+	if run.Thorough() {
+		timed("strace", func() { h.straceSubset() })
+	}
+	run.Note("phase_wall_seconds", phases) // informational only; no verdict depends on time
 }
 
 // ---------------------------------------------------------------------------------------------
